@@ -135,6 +135,11 @@ def check(cx):
     if len(sd) != 1 or len(tk) != 1 or not equivalent(sd[0].pc, is_some(nf))[0]:
         r4.violation('process_pong|notifier', 'PONG does not fire the pending pong notifier (whatever its token)', loc=fpo)
 
+    # a registered connection stays marked as registered: otherwise its PING is answered 451 and its PONG never reaches process_pong
+    r6 = cx.rule('R17.6', 'a live registered connection keeps passing the registration gate (imported)', floor=1, kind='dependency')
+    depends(cx, r6, 'C03', ('R3.3', 'R3.6'), 'a registered connection stays marked as such, so its PING / PONG are processed',
+            only=r'writes-authenticated|authenticate-reentry')
+
     r5 = cx.rule('R17.5', 'a pending deadline is never silently cancelled', floor=1, kind='typestate')
     census = cx_census(cx)
     # only a PONG from the client counts as the answer: process_pong has exactly one caller, the dispatch arm of the PONG command
